@@ -125,11 +125,12 @@ def make_policy(program, table):
         key = fi.key
         if key in cache:
             return cache[key]
-        dec = None
-        for pat, d in items:
-            if pat == key or fnmatch.fnmatchcase(key, pat):
-                dec = d
-                break
+        dec = table.get(key)          # an exact entry wins over a pattern
+        if dec is None:
+            for pat, d in items:
+                if fnmatch.fnmatchcase(key, pat):
+                    dec = d
+                    break
         if dec is None:
             raise Unsupported("no contract for callee " + key)
         if dec == "inline":
